@@ -1478,7 +1478,7 @@ func (x *g) attacker(ai int, kind int) Client {
 	}
 	valid := Op{K: "connect", CID: fmt.Sprintf("att%d", ai), Clean: r.Bool(2, 3), KA: 600, Auth: true, User: "a", Pass: "secret-a"}
 	if r.Bool(1, 3) {
-		valid.Will = &Will{Topic: "att/will", QoS: byte(r.Intn(3)), Size: 8 + r.Intn(20)}
+		valid.Will = &Will{Topic: []string{"att/will", "att/will", "att/will", "$SYS/att-will"}[r.Intn(4)], QoS: byte(r.Intn(3)), Size: 8 + r.Intn(20)}
 		if x.sc.Knobs.BufSize == 16384 && r.Bool(1, 4) {
 			valid.Will.Size = 16384 + 16 + r.Intn(30000) // larger than any subscriber's ring
 			if r.Bool(1, 2) {
@@ -1542,7 +1542,9 @@ func (x *g) attacker(ai int, kind int) Client {
 		cl.Ops = append(cl.Ops, valid)
 		for k := 1 + r.Intn(3); k > 0; k-- {
 			x.seq[ai]++
-			op := Op{K: "pub", Topic: "w/x", QoS: byte(r.Intn(3)), Size: 8 + r.Intn(200), Seq: x.seq[ai], NoWait: r.Bool(1, 2)}
+			// (topics the broker cannot route - reserved '$' topics - are legal
+			// packets too: whatever the topic store answers, nobody else may suffer)
+			op := Op{K: "pub", Topic: []string{"w/x", "w/x", "w/x", "$SYS/att", "$att"}[r.Intn(5)], QoS: byte(r.Intn(3)), Size: 8 + r.Intn(200), Seq: x.seq[ai], NoWait: r.Bool(1, 2)}
 			if op.QoS > 0 {
 				op.PID = x.nextPID(ai)
 			}
